@@ -95,7 +95,7 @@ func checkBlob(c BlobCase, r *kit.R) {
 func TestPropBlobs(t *testing.T) {
 	kit.Run(t, kit.Spec[BlobCase]{ID: "C33", Name: "blobs", Gen: genBlob, Check: checkBlob,
 		Rule:  "random x509.CertificateFingerprint (16/20/32/64-byte digests and odd lengths), ct.DigitallySigned and x509/ct.DigitallySigned (hash and signature algorithm ids incl. unassigned ones, signatures of 0..300 bytes), ct.SHA256Hash and x509/ct.SHA256Hash; non-trivial: empty value or unassigned algorithm id; distinct by case hash",
-		Quick: 600, Thorough: 8000,
+		Quick: 600, Thorough: 20000,
 		Assumptions: []string{"DigitallySigned.Signature has at most 65535 bytes (RFC 5246 opaque<0..2^16-1>; longer ones are C16's subject)"}})
 }
 
